@@ -300,9 +300,20 @@ class Session:
 
         self.side_post = post
         H.post = post
+        if seed % 4 == 1:
+            # a store clock far ahead of the wall clock (skew): every modified time (and fresh_time) lies in the year 2090. Which values are
+            # out of date depends on the modified times relative to each other, never on "now".
+            import datetime as _dt
+
+            far = _dt.datetime(2090, 1, 1)
+            for st in self.stores.values():
+                st.dt_of = (lambda tick, far=far: far + _dt.timedelta(seconds=tick))
+            self.fresh_dt = lambda tick, far=far: far + _dt.timedelta(seconds=tick)
+            self.future_clock = True
         self.chain_of = {d: ch for ch in prod.values() for d in ch}
 
     fresh_dt = None
+    future_clock = False
 
     def use_instants(self, T0, step, rng):
         """Logical tick t denotes the instant T0 + t*step (epoch seconds); every store reports its modified time in its own representation
